@@ -386,6 +386,18 @@ func genDetached(ctx *Ctx, emit func(Case)) {
 				q.Data = q.Data[:n]
 				verify("det.verify.sigtrunc", "sigtrunc", append(append([]byte(nil), objs[0]...), mpEncode(q)...), msg, false)
 			}
+			// the 64-byte value EXTENDED inside a well-formed bin (a receiver that copies into a fixed array would cut it back)
+			for _, extra := range [][]byte{{0}, {1}, r.Bytes(16), make([]byte, 64), append(append([]byte(nil), sv.Data...), sv.Data...)} {
+				q := sv.clone()
+				q.Data = append(append([]byte(nil), sv.Data...), extra...)
+				verify("det.verify.sigext", "sigext", append(append([]byte(nil), objs[0]...), mpEncode(q)...), msg, false)
+			}
+			// … and the value with its zero tail cut off (zero-padding would restore it): a signature whose last byte is 0
+			if sv.Data[len(sv.Data)-1] == 0 {
+				q := sv.clone()
+				q.Data = q.Data[:len(q.Data)-1]
+				verify("det.verify.sigtrunc", "sigtrunc.zerotail", append(append([]byte(nil), objs[0]...), mpEncode(q)...), msg, false)
+			}
 			verify("det.verify.nosig", "nosig", objs[0], msg, false)
 			// header edits (header hash changes => signature no longer matches)
 			f := &family{mode: "sig", major: major}
